@@ -19,7 +19,7 @@ def ownedWg (k : Nat) (x : Conn) : Bool := inWg x.phase && x.owner == k
 
 /-- program counters at which the call's wait group is necessarily empty -/
 def Pc.quiet : Pc → Bool
-  | .bindCheck | .parse | .listenSys | .store | .readLst | .setRunning | .returned => true
+  | .bindCheck | .readLst | .returned => true
   | _ => false
 
 structure Inv (w : World) : Prop where
@@ -733,27 +733,25 @@ theorem inv_stepCall {w w' : World} {k : Nat} (h : Inv w) (hs : stepCall w k = s
     have hl := h.link k c hk
     cases hpc : c.pc <;> simp only [hpc] at hs hz hl
     case bindCheck =>
-      split at hs <;> (simp only [Option.some.injEq] at hs; subst hs)
-      all_goals exact h.setCall hk rfl rfl rfl rfl rfl (by simp [hpc]) (by simpa [Pc.quiet] using hz)
-    case parse =>
-      cases ha : c.addr <;> simp only [ha, Option.some.injEq] at hs <;> subst hs
-      all_goals exact h.setCall hk rfl rfl rfl rfl rfl (by simp [hpc]) (by simpa [Pc.quiet] using hz)
-    case listenSys =>
-      cases ha : c.addr with
-      | none => simp [ha] at hs
-      | some a =>
-        simp only [ha] at hs
-        split at hs <;> (simp only [Option.some.injEq] at hs; subst hs)
-        all_goals exact h.setCall hk rfl rfl rfl rfl rfl (by simp [hpc]) (by simpa [Pc.quiet] using hz)
-    case store =>
-      cases hkd : c.kind <;> simp only [hkd, Option.some.injEq] at hs <;> subst hs
-      all_goals exact h.setCall hk rfl rfl rfl rfl rfl (by simp [hpc]) (by simpa [Pc.quiet] using hz)
+      have hw0 : c.wg = 0 := by simpa [Pc.quiet] using hz
+      split at hs
+      · simp only [Option.some.injEq] at hs; subst hs
+        exact h.setCall hk rfl rfl rfl rfl rfl (by simp [hpc]) (fun _ => hw0)
+      · cases ha : c.addr with
+        | none =>
+          simp only [ha, Option.some.injEq] at hs; subst hs
+          exact h.setCall hk rfl rfl rfl rfl rfl (by simp [hpc]) (fun _ => hw0)
+        | some a =>
+          simp only [ha] at hs
+          split at hs
+          · simp only [Option.some.injEq] at hs; subst hs
+            exact h.setCall hk rfl rfl rfl rfl rfl (by simp [hpc]) (fun _ => hw0)
+          · cases hkd : c.kind <;> simp only [hkd, Option.some.injEq] at hs <;> subst hs
+            all_goals exact h.setCall hk rfl rfl rfl rfl rfl (by simp [hpc]) (fun _ => hw0)
     case readLst =>
+      have hw0 : c.wg = 0 := by simpa [Pc.quiet] using hz
       cases hlst : w.lst <;> simp only [hlst, Option.some.injEq] at hs <;> subst hs
-      all_goals exact h.setCall hk rfl rfl rfl rfl rfl (by simp [hpc]) (by simpa [Pc.quiet] using hz)
-    case setRunning =>
-      simp only [Option.some.injEq] at hs; subst hs
-      exact h.setCall hk rfl rfl rfl rfl rfl (by simp [hpc]) (by simp [Pc.quiet])
+      all_goals exact h.setCall hk rfl rfl rfl rfl rfl (by simp [hpc]) (fun _ => hw0)
     case loopCheck =>
       split at hs <;> (simp only [Option.some.injEq] at hs; subst hs)
       · exact h.setCall hk rfl rfl rfl rfl rfl (by cases c.tmo <;> simp [hpc]) (by cases c.tmo <;> simp [Pc.quiet])
